@@ -80,6 +80,7 @@ var shimFuncs = map[string]map[string]string{
 	"path/filepath": {"Walk": "Walk", "WalkDir": "WalkDir", "Abs": "Abs"},
 	"time":          {"Now": "Now", "Since": "Since", "Until": "Until", "Sleep": "Sleep"},
 	"io/ioutil":     {"ReadFile": "ReadFile"},
+	"runtime":       {"GOMAXPROCS": "GOMAXPROCS", "NumCPU": "NumCPU", "Gosched": "Gosched"},
 }
 
 var allowedFuncs = map[string]map[string]bool{
@@ -96,7 +97,7 @@ var allowedFuncs = map[string]map[string]bool{
 var randMethods = map[string]bool{"Int": true, "Intn": true, "Int31": true, "Int31n": true, "Int63": true, "Int63n": true,
 	"Uint32": true, "Uint64": true, "Float32": true, "Float64": true, "Perm": true, "Shuffle": true, "NormFloat64": true, "ExpFloat64": true, "Read": true}
 
-var syncTypes = map[string]string{"Mutex": "Mutex", "RWMutex": "RWMutex", "Once": "Once", "Pool": "Pool", "Map": "Map"}
+var syncTypes = map[string]string{"Mutex": "Mutex", "RWMutex": "RWMutex", "Once": "Once", "Pool": "Pool", "Map": "Map", "WaitGroup": "WaitGroup"}
 
 func main() {
 	if len(os.Args) != 3 {
@@ -390,11 +391,8 @@ func (r *rewriter) rewriteFile() []byte {
 		refuse(imp.Pos(), "import %q has no seam (not on the allow-list)", path)
 	}
 
-	r.fn = "file"
-	// expression-level rewrites (T2, T3, T4, T6)
-	r.rewriteExprs()
-
-	// statement-level rewrites per function body (T1, T5)
+	// statement-level rewrites per function body (T1, T5, T8) — first, while every node is
+	// still an original one with type information
 	var resetSnips []string
 	for _, d := range f.Decls {
 		switch d := d.(type) {
@@ -412,6 +410,10 @@ func (r *rewriter) rewriteFile() []byte {
 			}
 		}
 	}
+	r.fn = "file"
+	// expression-level rewrites (T2, T3, T4, T6, T8)
+	r.rewriteExprs()
+
 	// T7 reset snippets
 	resetSnips = r.resetSnippets()
 	if len(resetSnips) > 0 {
@@ -622,7 +624,7 @@ func (r *rewriter) stmt(s ast.Stmt) []ast.Stmt {
 		}
 		if t := r.info().TypeOf(s.X); t != nil {
 			if _, isChan := t.Underlying().(*types.Chan); isChan {
-				refuse(s.Pos(), "range over channel")
+				return append(pre, r.rangeOverChan(s))
 			}
 		}
 	case *ast.SwitchStmt:
@@ -636,11 +638,13 @@ func (r *rewriter) stmt(s ast.Stmt) []ast.Stmt {
 			cc.Body = r.block(cc.Body)
 		}
 	case *ast.SelectStmt:
-		refuse(s.Pos(), "select statement")
+		return append(pre, r.selectStmt(s))
 	case *ast.SendStmt:
-		refuse(s.Pos(), "channel send")
+		stats["T8"]++
+		r.needImp = true
+		return append(pre, &ast.ExprStmt{X: &ast.CallExpr{Fun: &ast.SelectorExpr{X: s.Chan, Sel: ast.NewIdent("Send")}, Args: []ast.Expr{s.Value}}})
 	case *ast.GoStmt:
-		refuse(s.Pos(), "go statement")
+		return append(pre, r.goStmt(s))
 	}
 	return append(pre, s)
 }
@@ -716,6 +720,153 @@ func (r *rewriter) rangeOverMap(s *ast.RangeStmt) ast.Stmt {
 		return &ast.BlockStmt{List: []ast.Stmt{hoist, loop}}
 	}
 	return loop
+}
+
+// T8: goroutines, channels, select -------------------------------------------------
+
+// rangeOverChan: for v := range ch { body }  ->  for { v, ok := ch.Recv2(); if !ok { break }; { body } }
+func (r *rewriter) rangeOverChan(s *ast.RangeStmt) ast.Stmt {
+	stats["T8"]++
+	r.needImp = true
+	r.tmpN++
+	okTmp := ast.NewIdent(fmt.Sprintf("simrtOk%d", r.tmpN))
+	var lhs ast.Expr = ast.NewIdent("_")
+	tok := token.DEFINE
+	if s.Key != nil {
+		lhs = s.Key
+		tok = s.Tok
+	}
+	recv := &ast.CallExpr{Fun: &ast.SelectorExpr{X: s.X, Sel: ast.NewIdent("Recv2")}}
+	var head []ast.Stmt
+	if tok == token.DEFINE {
+		head = append(head, &ast.AssignStmt{Lhs: []ast.Expr{lhs, okTmp}, Tok: token.DEFINE, Rhs: []ast.Expr{recv}})
+		if id, ok := lhs.(*ast.Ident); ok && id.Name != "_" {
+			head = append(head, &ast.AssignStmt{Lhs: []ast.Expr{ast.NewIdent("_")}, Tok: token.ASSIGN, Rhs: []ast.Expr{lhs}})
+		}
+	} else {
+		head = append(head, &ast.DeclStmt{Decl: &ast.GenDecl{Tok: token.VAR, Specs: []ast.Spec{&ast.ValueSpec{Names: []*ast.Ident{okTmp}, Type: ast.NewIdent("bool")}}}})
+		head = append(head, &ast.AssignStmt{Lhs: []ast.Expr{lhs, okTmp}, Tok: token.ASSIGN, Rhs: []ast.Expr{recv}})
+	}
+	head = append(head, &ast.IfStmt{Cond: &ast.UnaryExpr{Op: token.NOT, X: okTmp}, Body: &ast.BlockStmt{List: []ast.Stmt{&ast.BranchStmt{Tok: token.BREAK}}}})
+	body := append([]ast.Stmt{s.Body.List[0]}, head...)
+	body = append(body, &ast.BlockStmt{List: s.Body.List[1:]})
+	return &ast.ForStmt{Body: &ast.BlockStmt{List: body}}
+}
+
+// goStmt: go f(a, b)  ->  { g0 := f; g1 := a; g2 := b; simrt.Go(func() { g0(g1, g2) }) }
+func (r *rewriter) goStmt(s *ast.GoStmt) ast.Stmt {
+	stats["T8"]++
+	r.needImp = true
+	var pre []ast.Stmt
+	call := s.Call
+	hoist := func(e ast.Expr) ast.Expr {
+		r.tmpN++
+		tmp := ast.NewIdent(fmt.Sprintf("simrtGo%d", r.tmpN))
+		pre = append(pre, &ast.AssignStmt{Lhs: []ast.Expr{tmp}, Tok: token.DEFINE, Rhs: []ast.Expr{e}})
+		return tmp
+	}
+	fun := call.Fun
+	switch fun.(type) {
+	case *ast.FuncLit, *ast.Ident:
+	default:
+		fun = hoist(fun)
+	}
+	args := make([]ast.Expr, len(call.Args))
+	for i, a := range call.Args {
+		args[i] = hoist(a)
+	}
+	inner := &ast.CallExpr{Fun: fun, Args: args, Ellipsis: call.Ellipsis}
+	if _, isLit := fun.(*ast.FuncLit); isLit {
+		inner.Fun = &ast.ParenExpr{X: fun}
+	}
+	lit := &ast.FuncLit{Type: &ast.FuncType{Params: &ast.FieldList{}}, Body: &ast.BlockStmt{List: []ast.Stmt{&ast.ExprStmt{X: inner}}}}
+	pre = append(pre, &ast.ExprStmt{X: simrtCall("Go", lit)})
+	return &ast.BlockStmt{List: pre}
+}
+
+// selectStmt: select { case v := <-a: A; case b <- x: B; default: D }  ->
+//
+//	{ c0 := a; c1 := b; v1 := x; switch simrt.Select(true, simrt.RecvCase(c0), simrt.SendCase(c1, v1)) { case 0: v := c0.Selected(); A ... default: D } }
+func (r *rewriter) selectStmt(s *ast.SelectStmt) ast.Stmt {
+	stats["T8"]++
+	r.needImp = true
+	var pre []ast.Stmt
+	tmp := func(prefix string, e ast.Expr) *ast.Ident {
+		r.tmpN++
+		id := ast.NewIdent(fmt.Sprintf("simrt%s%d", prefix, r.tmpN))
+		pre = append(pre, &ast.AssignStmt{Lhs: []ast.Expr{id}, Tok: token.DEFINE, Rhs: []ast.Expr{e}})
+		return id
+	}
+	hasDefault := false
+	var cases []ast.Expr
+	var clauses []ast.Stmt
+	idx := 0
+	for _, c := range s.Body.List {
+		cc := c.(*ast.CommClause)
+		body := r.block(cc.Body)
+		if cc.Comm == nil {
+			hasDefault = true
+			clauses = append(clauses, &ast.CaseClause{List: nil, Body: body})
+			continue
+		}
+		var bind ast.Stmt
+		switch comm := cc.Comm.(type) {
+		case *ast.SendStmt:
+			ch := tmp("Ch", comm.Chan)
+			v := tmp("Val", comm.Value)
+			cases = append(cases, simrtCall("SendCase", ch, v))
+		case *ast.ExprStmt:
+			u, ok := unparen(comm.X).(*ast.UnaryExpr)
+			if !ok || u.Op != token.ARROW {
+				refuse(comm.Pos(), "unsupported select case")
+				continue
+			}
+			ch := tmp("Ch", u.X)
+			cases = append(cases, simrtCall("RecvCase", ch))
+		case *ast.AssignStmt:
+			u, ok := unparen(comm.Rhs[0]).(*ast.UnaryExpr)
+			if !ok || u.Op != token.ARROW {
+				refuse(comm.Pos(), "unsupported select case")
+				continue
+			}
+			ch := tmp("Ch", u.X)
+			cases = append(cases, simrtCall("RecvCase", ch))
+			sel := "Selected"
+			if len(comm.Lhs) == 2 {
+				sel = "Selected2"
+			}
+			bind = &ast.AssignStmt{Lhs: comm.Lhs, Tok: comm.Tok, Rhs: []ast.Expr{&ast.CallExpr{Fun: &ast.SelectorExpr{X: ch, Sel: ast.NewIdent(sel)}}}}
+		}
+		if bind != nil {
+			body = append([]ast.Stmt{bind}, body...)
+			if as, ok := bind.(*ast.AssignStmt); ok && as.Tok == token.DEFINE {
+				// avoid "declared and not used"
+				for _, l := range as.Lhs {
+					if id, ok := l.(*ast.Ident); ok && id.Name != "_" {
+						body = append(body[:1:1], append([]ast.Stmt{&ast.AssignStmt{Lhs: []ast.Expr{ast.NewIdent("_")}, Tok: token.ASSIGN, Rhs: []ast.Expr{id}}}, body[1:]...)...)
+					}
+				}
+			}
+		}
+		clauses = append(clauses, &ast.CaseClause{List: []ast.Expr{intLit(idx)}, Body: body})
+		idx++
+	}
+	def := ast.NewIdent("false")
+	if hasDefault {
+		def = ast.NewIdent("true")
+	}
+	sw := &ast.SwitchStmt{Tag: simrtCall("Select", append([]ast.Expr{def}, cases...)...), Body: &ast.BlockStmt{List: clauses}}
+	return &ast.BlockStmt{List: append(pre, sw)}
+}
+
+func unparen(e ast.Expr) ast.Expr {
+	for {
+		p, ok := e.(*ast.ParenExpr)
+		if !ok {
+			return e
+		}
+		e = p.X
+	}
 }
 
 func simpleOperand(e ast.Expr) bool {
@@ -1046,15 +1197,60 @@ func (r *rewriter) pkgOf(id *ast.Ident) string {
 
 func (r *rewriter) rewriteExprs() {
 	info := r.info()
+	isChan := func(e ast.Expr) bool {
+		t := info.TypeOf(e)
+		if t == nil {
+			return false
+		}
+		_, ok := t.Underlying().(*types.Chan)
+		return ok
+	}
 	astutil.Apply(r.file, func(c *astutil.Cursor) bool {
 		switch n := c.Node().(type) {
-		case *ast.ChanType:
-			refuse(n.Pos(), "channel type")
 		case *ast.UnaryExpr:
 			if n.Op == token.ARROW {
-				refuse(n.Pos(), "channel receive")
+				// <-ch  ->  ch.Recv()   /   v, ok := <-ch  ->  ch.Recv2()
+				method := "Recv"
+				if as, ok := c.Parent().(*ast.AssignStmt); ok && len(as.Lhs) == 2 && len(as.Rhs) == 1 {
+					method = "Recv2"
+				}
+				if vs, ok := c.Parent().(*ast.ValueSpec); ok && len(vs.Names) == 2 && len(vs.Values) == 1 {
+					method = "Recv2"
+				}
+				c.Replace(&ast.CallExpr{Fun: &ast.SelectorExpr{X: n.X, Sel: ast.NewIdent(method)}})
+				stats["T8"]++
+				r.needImp = true
+				return true
 			}
 		case *ast.CallExpr:
+			if id, ok := n.Fun.(*ast.Ident); ok {
+				if _, isB := info.Uses[id].(*types.Builtin); isB {
+					switch id.Name {
+					case "make":
+						if ct, ok := n.Args[0].(*ast.ChanType); ok {
+							size := ast.Expr(intLit(0))
+							if len(n.Args) > 1 {
+								size = n.Args[1]
+							}
+							c.Replace(&ast.CallExpr{Fun: &ast.IndexExpr{X: &ast.SelectorExpr{X: ast.NewIdent("simrt"), Sel: ast.NewIdent("NewChan")}, Index: ct.Value}, Args: []ast.Expr{size}})
+							stats["T8"]++
+							r.needImp = true
+							return true
+						}
+					case "close":
+						if len(n.Args) == 1 && isChan(n.Args[0]) {
+							c.Replace(&ast.CallExpr{Fun: &ast.SelectorExpr{X: n.Args[0], Sel: ast.NewIdent("Close")}})
+							return true
+						}
+					case "len", "cap":
+						if len(n.Args) == 1 && isChan(n.Args[0]) {
+							m := map[string]string{"len": "Len", "cap": "Cap"}[id.Name]
+							c.Replace(&ast.CallExpr{Fun: &ast.SelectorExpr{X: n.Args[0], Sel: ast.NewIdent(m)}})
+							return true
+						}
+					}
+				}
+			}
 			// T2: v.MapKeys()
 			if sel, ok := n.Fun.(*ast.SelectorExpr); ok {
 				if s := info.Selections[sel]; s != nil && s.Kind() == types.MethodVal {
@@ -1160,7 +1356,15 @@ func (r *rewriter) rewriteExprs() {
 			refuse(n.Pos(), "%s.%s has no seam", path, n.Sel.Name)
 		}
 		return true
-	}, nil)
+	}, func(c *astutil.Cursor) bool {
+		// post-order, so that nested channel types are rewritten inside out
+		if ct, ok := c.Node().(*ast.ChanType); ok {
+			c.Replace(&ast.StarExpr{X: &ast.IndexExpr{X: &ast.SelectorExpr{X: ast.NewIdent("simrt"), Sel: ast.NewIdent("Chan")}, Index: ct.Value}})
+			stats["T8"]++
+			r.needImp = true
+		}
+		return true
+	})
 }
 
 func isSimrtCall(c *ast.CallExpr, name string) bool {
